@@ -497,7 +497,7 @@ H("conn_retry_early_frames_native", ["C17", "C01"], "replay-only", "connection::
 H("conn_unprotected_packet_native", ["C04"], "replay-only", "connection::unprotected_packet_native",
   [("mode", "u8")], 4, [], ["Connection::handle_packet"], "native replay body of E2 slice query e2_handle_packet_unprotected_slice")
 H("conn_foreign_datagram_credit_native", ["C07", "C15"], "replay-only", "connection::foreign_datagram_credit_native",
-  [("mode", "u8")], 4, [], ["Connection::handle_event", "Connection::handle_coalesced"], "native replay body of E2 queries e2_handle_event_credits_own_path_only / e2_handle_coalesced_credits_own_path_only")
+  [("mode", "u8")], 4, [], ["Connection::handle_event", "Connection::handle_coalesced"], "native replay body of E2 queries e2_handle_event_credits_own_path_only / e2_handle_coalesced_credit")
 H("conn_close_reason_early_native", ["C08"], "replay-only", "connection::close_reason_early_native",
   [("x", "u8")], 4, [], ["Connection::close", "Connection::poll_transmit", "frame::Close::encode"], "native replay body of E2 slice query e2_poll_transmit_close_reason_slice")
 H("conn_path_response_native", ["C15", "C07"], "replay-only", "connection::path_response_native",
